@@ -17,6 +17,7 @@ def startsWith (l p : List Nat) : Bool := l.take p.length == p
 /-- the harness's line conventions -/
 def classify (l : List Nat) : Kind :=
   if startsWith l (strBytes "{\"id\":null,\"method\":\"mining.") then .known
+  else if startsWith l (strBytes "{\"id\":9") then .known      -- answers: ids 900.., no method
   else if startsWith l (strBytes "{\"id\":7,\"method\":\"foo.") then .unknown
   else .invalid
 
